@@ -31,6 +31,23 @@ def stall_run(topo, stall_after, speeds, delay, seed, seconds):
                       last_t=(evs[-1]['t'] - t_stall) / 1e9 if evs and t_stall else None)
     return out, t_stall, p
 
+def slow_run(topo, speeds, delay, seed, seconds):
+    """a consumer that is slower than its producer for the whole run (no stall): -> frames made by each producer minus frames taken by the sink"""
+    a0, a1 = pipes.addr(0), pipes.addr(1)
+    if topo == 'sole':
+        specs = [dict(id='src', kind='src', outputs=a0[0], period=speeds[0]),
+                 dict(id='sink', kind='sink', sources=a0[1], work=speeds[1])]
+        producers = ['src']
+    else:
+        specs = [dict(id='src', kind='src', outputs=a0[0], period=speeds[0]),
+                 dict(id='r1', kind='relay', sources=a0[1], outputs=a1[0], work=0),
+                 dict(id='sink', kind='sink', sources=a1[1], work=speeds[1])]
+        producers = ['src', 'r1']
+    p = pipes.Pipeline(specs, seed=seed, delay_ms=delay)
+    rec = p.run(seconds, max_steps=3_000_000)
+    taken = len(rec.inputs('sink'))
+    return {f: len([e for e in rec.events if e['f'] == f and e['kind'] == ('gen' if f == 'src' else 'in')]) - taken for f in producers}, taken
+
 def main():
     run = vlib.Run('C04')
     run.coq_gate()
@@ -77,10 +94,28 @@ def main():
                 if len(evs) > BOUND:
                     run.violation('stall:runahead-before-timeout several ahead=%d' % len(evs),
                                   'producer published %d frames within 4.5 s of the stall although the stalled consumer was still tracked' % len(evs), case)
+    # a consumer that never stalls but is slower than its producer all along: what is queued towards it stays small and does not
+    # depend on how long the pipeline has been running
+    for it in range(run.n(4, 60)):
+        topo = rng.choice(['sole', 'relay'])
+        speeds = [rng.choice([0, 0.005, 0.02]), rng.choice([0.04, 0.07, 0.15])]
+        delay = rng.choice([(0, 0), (0, 30)])
+        seed = rng.randrange(10 ** 6)
+        scase = dict(family='slow-consumer', topo=topo, speeds=speeds, delay_ms=delay, seed=seed)
+        short, n1 = slow_run(topo, speeds, delay, seed, 15)
+        long_, n2 = slow_run(topo, speeds, delay, seed, 60)
+        run.seen(('slow', repr(scase)), nontrivial=n2 > n1 > 5)
+        run.count('slow-consumer:%s' % topo)
+        for f in short:
+            run.count('slow-consumer:ahead<=%d' % min(long_[f], 12))
+            if long_[f] > BOUND + (2 if f == 'src' and topo == 'relay' else 0) or long_[f] > short[f] + 3:
+                run.violation('slow-consumer:backlog-grows %s producer=%s %d->%d' % (topo, f, short[f], long_[f]),
+                              'the consumer takes a frame every %s s, the producer makes one every %s s: after 15 s (%d frames taken) producer %s is %d frames ahead, after 60 s (%d taken) %d'
+                              % (speeds[1], speeds[0], n1, f, short[f], n2, long_[f]), scase)
     run.samples.append(dict(family='stall', **case))
     run.rule = ('component correspondence as C01 (receiver/sender machines vs real classes) plus pipelines of real filters in pipeline mode: a synchronized '
                 'sink stops taking frames after k inputs (sole consumer, behind a relay, one of several consumers), producer/consumer speeds 0-0.3 s, '
-                'delays 0-80 ms, each run for 60 s and 600 s of virtual time; non-trivial = the stall point was reached; distinct by hash')
+                'delays 0-80 ms, each run for 60 s and 600 s of virtual time, plus consumers that never stall but are slower than the producer throughout (backlog after 15 s and 60 s); non-trivial = the stall point was reached; distinct by hash')
     run.partial = ['the sender-side credit bound is proved (C04_credit_bound: publishes while a synchronized client is tracked <= requests received from it, every input sequence); '
                    'what is NOT proved is the end-to-end figure: how many requests a stalling consumer has in flight (one prefetch per returned set, one per 100 ms wait interval, '
                    'queued up to the PUSH high-water mark) - measured in pipeline mode, flat in the run length',
